@@ -195,6 +195,19 @@ pub fn record(mode: &str, seed: u64, n: usize, out: &mut Out) {
                 out.emit(arg_event(&a), true);
             }
         }
+        // C02 (writer half, through the public constructor): Message::new(conf).as_bytes() against the layout of the message the
+        // configuration describes
+        "layout" => {
+            for i in 0..n {
+                let c = random_conf(&mut r, i);
+                out.calls += 2;
+                let res = match catch_unwind(AssertUnwindSafe(|| Message::new(c.clone(), None).as_bytes())) {
+                    Ok(b) => json!({"v": "ok", "bytes": proj::bytes(&b)}),
+                    Err(_) => json!({"v": "panic"}),
+                };
+                out.emit(json!({"op": "layout", "conf": conf_json(&c), "res": res}), true);
+            }
+        }
         "ts" => {
             let mut inputs: Vec<u64> = vec![0, 1, 999, 1000, 1001, 999_999, 1_000_000, 1_000_001, 1_234_567, 4_294_967, 4_294_968, u32::MAX as u64, u32::MAX as u64 + 1, u64::MAX, u64::MAX - 1, u64::MAX / 1000, u64::MAX / 1_000_000];
             for unit in [1000u64, 1_000_000] {
